@@ -44,11 +44,33 @@ static char *verif_path_strchr(const char *s, int c)
   return nondet_bool() ? (char *) gp_path + at : NULL;
 }
 
+/* ISO C 7.24.5.5 for c = '/': the LAST occurrence; the description fixes only
+   whether there is one at or after index 1 and where the first one is. */
+static char *verif_path_strrchr(const char *s, int c)
+{
+  V_ASSERT("C14/path_is_relative.scan_starts_inside_the_string",
+           __CPROVER_same_object(s, gp_path) && (size_t) (s - gp_path) <= gp_len);
+  V_ASSERT("C03/path_is_relative.looks_for_a_directory_separator", c == '/');
+  size_t from = (size_t) (s - gp_path);
+  if (gp_has_slash && from <= gp_slash) {
+    size_t at = nondet_ulong();
+    __CPROVER_assume(at >= gp_slash && at < gp_len);
+    return (char *) gp_path + at;
+  }
+  if (from == 0 && gp_len > 0 && gp_path[0] == '/') return (char *) gp_path;
+  if (from <= 1) return NULL;
+  size_t at = nondet_ulong();
+  __CPROVER_assume(at >= from && at < gp_len);
+  return nondet_bool() ? (char *) gp_path + at : NULL;
+}
+
 #define strlen(s) verif_path_strlen(s)
 #define strchr(s, c) verif_path_strchr(s, c)
+#define strrchr(s, c) verif_path_strrchr(s, c)
 #include "process.posix.c"
 #undef strlen
 #undef strchr
+#undef strrchr
 #include "static_process.h"
 #include "common.h"
 
